@@ -201,6 +201,61 @@ class Body:
             return ds[0]
         return None
 
+    def all_places(self):
+        """Yield (bb, place dict, 'def'|'use') for every place mentioned in non-cleanup blocks."""
+        def ops_of_rv(rv):
+            k = rv['k']
+            if k in ('use', 'cast', 'repeat'):
+                yield rv['op']
+            elif k in ('ref', 'rawptr', 'discr'):
+                yield {'k': 'copy', 'pl': rv['pl']}
+            elif k == 'bin':
+                yield rv['a']
+                yield rv['b']
+            elif k == 'un':
+                yield rv['a']
+            elif k == 'agg':
+                for o in rv['ops']:
+                    yield o
+        for i, b in enumerate(self.blocks):
+            if b['cleanup']:
+                continue
+            for s in b['stmts']:
+                if s['k'] == 'assign':
+                    yield i, s['lhs'], 'def'
+                    for o in ops_of_rv(s['rv']):
+                        if is_place(o):
+                            yield i, o['pl'], 'use'
+                elif s['k'] == 'setdiscr':
+                    yield i, s['lhs'], 'def'
+            t = b['term']
+            if t['k'] in ('call', 'tailcall'):
+                for a in t['args']:
+                    if is_place(a):
+                        yield i, a['pl'], 'use'
+                if 'dest' in t:
+                    yield i, t['dest'], 'def'
+                c = t.get('callee') or {}
+                if c.get('indirect') and is_place(c.get('op')):
+                    yield i, c['op']['pl'], 'use'
+            elif t['k'] == 'switch':
+                if is_place(t['op']):
+                    yield i, t['op']['pl'], 'use'
+            elif t['k'] == 'drop':
+                yield i, t['pl'], 'use'
+            elif t['k'] == 'assert':
+                if is_place(t['cond']):
+                    yield i, t['cond']['pl'], 'use'
+
+    def fields_touched(self):
+        """Set of (base adt path, field name) projections mentioned anywhere in the body."""
+        out = set()
+        for bb, pl, k in self.all_places():
+            for pr in pl['p']:
+                if pr[0] == 'field' and len(pr) > 3 and pr[3]:
+                    out.add((norm(pr[3]), pr[2]))
+        return out
+
     def local_name(self, l):
         return self.names.get(l)
 
